@@ -88,6 +88,16 @@ def build_link(rng, bits, sps, R, shape, n_pol, with_fibre, wide=False):
         cw = D.LASER(T.gv.t if False else np.arange(n) * T.gv.dt, 10 * np.log10(Pw * 1e3))
         if n_pol == 2:
             cw = T.optical_signal(cw.signal, n_pol=2)
+    if n_pol == 2 and rng.integers(2):
+        # "either polarisation layout": the carrier polarised along the selected axis only, or with unequal power in the two axes
+        # (the modulated axis then carries the fraction `split` of the power)
+        k = "xy".index(pol)
+        split = [1.0, float(rng.uniform(0.2, 0.9))][int(rng.integers(2))]
+        rows = np.zeros((2, n), complex)
+        rows[k] = cw.signal[0] * np.sqrt(split)
+        rows[1 - k] = cw.signal[0] * np.sqrt(1 - split) * np.exp(1j * rng.uniform(0, 6))
+        cw = T.optical_signal(rows)
+        desc["carrier_layout"] = f"{split:.2f} of the power along {pol}"
     o = D.MZM(cw, v, bias=-Vpi, Vpi=Vpi, loss_dB=loss, ER_dB=ER, pol=pol)
     el = None
     if with_fibre:
